@@ -310,6 +310,7 @@ func renameContract(c *Contract, al map[string]string) {
 	}
 	do(c.Requires)
 	do(c.Ensures)
+	do(c.AssumedEnsures)
 	do(c.Covers)
 	do(c.Lemmas)
 	do(c.AtUnlock)
